@@ -3,3 +3,5 @@ import ClapModel.Utf8
 import ClapModel.Lex
 import ClapModel.RawArgs
 import ClapModel.TextWrap
+import ClapModel.Values
+import ClapModel.Store
